@@ -246,3 +246,152 @@ def xlat_cells(info, prop, tier, verif, refine=()):
     out.append('} // mod %s' % mod)
     aux = {'reference': 'spec/i8042_xlat.json', 'cells_covered': ncells}
     return '\n'.join(out), obs, aux
+
+
+# ---------------------------------------------------------------------------- layouts (C09-C12, C15, C16)
+
+RAW52 = ['F1', 'F2', 'F3', 'F4', 'F5', 'F6', 'F7', 'F8', 'F9', 'F10', 'F11', 'F12', 'PrintScreen', 'SysRq', 'ScrollLock', 'PauseBreak',
+         'Insert', 'Home', 'PageUp', 'End', 'PageDown', 'ArrowUp', 'ArrowDown', 'ArrowLeft', 'ArrowRight', 'NumpadLock', 'CapsLock',
+         'LShift', 'RShift', 'LControl', 'RControl', 'LAlt', 'RAltGr', 'LWin', 'RWin', 'Apps',
+         'PrevTrack', 'NextTrack', 'Mute', 'Calculator', 'Play', 'Stop', 'VolumeDown', 'VolumeUp', 'WWWHome',
+         'PowerOnTestOk', 'TooManyKeys', 'RControl2', 'RAlt2', 'Oem9', 'Oem10', 'Oem11']
+NUMPAD_DIGITS = {'Numpad%d' % i: 0x30 + i for i in range(10)}
+NUMPAD_OPS = {'NumpadDivide': 0x2F, 'NumpadMultiply': 0x2A, 'NumpadSubtract': 0x2D, 'NumpadAdd': 0x2B}
+EDITING = {'Escape': 0x1B, 'Backspace': 0x08, 'Tab': 0x09, 'Return': 0x0A, 'Delete': 0x7F, 'Spacebar': 0x20}
+# decimal separator of the numpad decimal key per layout (property C15: "the layout's decimal separator")
+DECIMAL = {'Us104Key': 0x2E, 'Uk105Key': 0x2E, 'Jis109Key': 0x2E, 'Colemak': 0x2E, 'Dvorak104Key': 0x2E, 'DVP104Key': 0x2E, 'Azerty': 0x2E,
+           'De105Key': 0x2C, 'No105Key': 0x2C, 'FiSe105Key': 0x2C}
+
+
+def real_layouts(info):
+    return [l for l in info.layouts if 'AnyLayout' not in l]
+
+
+def check_keys(info, keys, what):
+    missing = [k for k in keys if k not in info.keycodes]
+    if missing:
+        raise ExtractError('lost-anchor: %s names KeyCode variant(s) that no longer exist: %s' % (what, ', '.join(missing)))
+
+
+def layout_cells(info, prop, tier, verif, refine=()):
+    known = {f['obligation']: f for f in load_findings(verif) if f['property'] == prop}
+    lays = real_layouts(info)
+    out = []
+    obs = {}
+    aux = {}
+    ncells = 0
+    hints = None
+    if prop == 'C12':
+        from . import native
+        hints = native.hints(info, 'layouts')
+    check_keys(info, RAW52 + list(NUMPAD_DIGITS) + list(NUMPAD_OPS) + list(EDITING) + ['NumpadEnter', 'NumpadPeriod'], 'engine/cells.py')
+    for L in lays:
+        mod = 'verif_%s_%s' % (prop.lower(), L)
+        o = ['pub mod %s {' % mod, 'use vstd::prelude::*;', 'use crate::*;', 'use crate::verif_ldefs::*;', 'use crate::layouts::%s;' % L, '']
+        unit = '%s/%s' % (prop, L)
+        percell = tier == 'thorough' or unit in refine
+        cells = []   # (cell id, assert text, description)
+
+        if prop in ('C09', 'C10', 'C11'):
+            pred = {'C09': 'c09_cell', 'C10': 'c10_cell', 'C11': 'c11_cell'}[prop]
+            for k in info.keycodes:
+                cells.append(('%s/%s/%s' % (prop, L, k), ['%s(%s, KeyCode::%s)' % (pred, L, k)], '%s(%s, %s)' % (pred, L, k)))
+            kn = [k for k in info.keycodes if '%s/%s/%s' % (prop, L, k) in known]
+            gap = ' && '.join('k != KeyCode::%s' % k for k in kn)
+            coarse = 'forall|k: KeyCode| %s#[trigger] %s(%s, k)' % (('(' + gap + ') ==> ') if gap else '', pred, L)
+            coarse_body = ''
+        elif prop == 'C16':
+            for k in RAW52:
+                cells.append(('C16/%s/raw/%s' % (L, k), ['c16_raw(%s, KeyCode::%s)' % (L, k)], 'every modifier state and mode: %s decodes to RawKey(%s)' % (k, k)))
+            for k in info.keycodes:
+                cells.append(('C16/%s/alias/%s' % (L, k), ['c16_alias(%s, KeyCode::%s)' % (L, k)], 'if %s decodes to a raw key it is itself or its NumLock-off alias' % k))
+            kn_raw = [k for k in RAW52 if 'C16/%s/raw/%s' % (L, k) in known]
+            kn_al = [k for k in info.keycodes if 'C16/%s/alias/%s' % (L, k) in known]
+            raws = ' && '.join('c16_raw(%s, KeyCode::%s)' % (L, k) for k in RAW52 if k not in kn_raw)
+            gap = ' && '.join('k != KeyCode::%s' % k for k in kn_al)
+            coarse = '%s,\n        forall|k: KeyCode| %s#[trigger] c16_alias(%s, k)' % (raws, ('(' + gap + ') ==> ') if gap else '', L)
+            coarse_body = ''
+            kn = kn_raw + kn_al
+        elif prop == 'C15':
+            if L not in DECIMAL:
+                raise ExtractError('layout %s has no decimal-separator entry in engine/cells.py (new layout: add a reference row)' % L)
+            for k, d in NUMPAD_DIGITS.items():
+                cells.append(('C15/%s/%s' % (L, k), ['c15_digit(%s, KeyCode::%s, 0x%02X)' % (L, k, d)], '%s: digit %s with NumLock on, navigation alias (raw) with NumLock off' % (k, chr(d))))
+            for k, c in list(NUMPAD_OPS.items()) + list(EDITING.items()):
+                cells.append(('C15/%s/%s' % (L, k), ['c15_const(%s, KeyCode::%s, 0x%02X)' % (L, k, c)], '%s types U+%04X in every modifier state and mode' % (k, c)))
+            cells.append(('C15/%s/NumpadEnter' % L, ['c15_enter(%s)' % L, 'c15_const(%s, KeyCode::NumpadEnter, 0x0A)' % L], 'NumpadEnter types what Return types (U+000A)'))
+            cells.append(('C15/%s/NumpadPeriod' % L, ['c15_decimal(%s, 0x%02X)' % (L, DECIMAL[L])], 'numpad decimal key: %r with NumLock on, U+007F with NumLock off' % chr(DECIMAL[L])))
+            kn = [c[0] for c in cells if c[0] in known]
+            coarse = ',\n        '.join(a for c in cells if c[0] not in known for a in c[1])
+            coarse_body = ''
+        elif prop == 'C12':
+            # witness hints from the real code (untrusted; Verus checks each one)
+            wit = {}
+            for k in info.keycodes:
+                row = hints[L][k]
+                for lvl in range(3):
+                    v = row[lvl]
+                    if v.startswith('U+'):
+                        cp = int(v[2:], 16)
+                        if 0x20 <= cp <= 0x7E and cp not in wit:
+                            wit[cp] = (k, lvl)
+            for cp in range(0x20, 0x7F):
+                cid = 'C12/%s/U+%04X' % (L, cp)
+                if cp in wit:
+                    k, lvl = wit[cp]
+                    a = ['%s.spec_map(KeyCode::%s, &level_mods(%d), HandleControl::Ignore) == uni(0x%02X)' % (L, k, lvl, cp), 'c12_cell(%s, 0x%02X)' % (L, cp)]
+                    desc = '%r is typed by %s at level %d' % (chr(cp), k, lvl)
+                else:
+                    a = ['c12_cell(%s, 0x%02X)' % (L, cp)]
+                    desc = '%r is typed by some key at a plain level (no witness found on the real code)' % chr(cp)
+                cells.append((cid, a, desc))
+            kn = [c[0] for c in cells if c[0] in known]
+            coarse = ',\n        '.join(c[1][-1] for c in cells if c[0] not in known)
+            coarse_body = '\n'.join('    assert(%s);' % c[1][0] for c in cells if c[0] not in known and len(c[1]) > 1)
+        else:
+            raise ExtractError('no layout cell generator for ' + prop)
+
+        o.append('/*@LEMMA:%s@*/' % unit)
+        o.append('pub proof fn coarse()\n    ensures\n        %s,\n{\n%s\n}' % (coarse, coarse_body))
+        o.append('/*@ENDLEMMA@*/')
+        n_unit = len(cells)
+        obs[unit] = {'kind': 'coarse', 'unit': unit, 'props': [prop], 'cells': 0 if percell else n_unit - len(kn),
+                     'text': '%s: all %d cells of layout %s in one quantified lemma' % (prop, n_unit, L)}
+        ncells += n_unit
+        for i, (cid, asserts, desc) in enumerate(cells):
+            if not (percell or cid in known):
+                continue
+            o.append('proof fn cell_%d() { %s } // CELL %s' % (i, ' '.join('assert(%s);' % a for a in asserts), cid))
+            obs[cid] = {'kind': 'cell', 'unit': unit, 'props': [prop], 'text': desc}
+            if cid in known and known[cid].get('observed_expr'):
+                o.append('proof fn cell_%d_observed() { assert(%s); } // CELL %s#observed' % (i, known[cid]['observed_expr'].replace('$L', L), cid))
+                obs[cid + '#observed'] = {'kind': 'cell', 'unit': unit, 'props': [prop], 'text': 'known finding still shows its recorded behaviour: ' + known[cid]['observed_expr']}
+        o.append('} // mod %s' % mod)
+        out.append('\n'.join(o))
+    aux['cells_covered'] = ncells
+    aux['layouts'] = lays
+    return '\n'.join(out), obs, aux
+
+
+def anylayout_cells(info, prop, tier, verif, refine=()):
+    """C17: per variant, both wrapper forms equal the wrapped layout for every key, modifier set and mode"""
+    lays = real_layouts(info)
+    if 'AnyLayout' not in info.layouts or '&AnyLayout' not in info.layouts:
+        raise ExtractError('lost-anchor: impl KeyboardLayout for AnyLayout / &AnyLayout not found')
+    out = ['pub mod verif_c17_cells {', 'use vstd::prelude::*;', 'use crate::*;', 'use crate::layouts::*;', '']
+    obs = {}
+    for L in lays:
+        for form in ('value', 'reference'):
+            cid = 'C17/%s/%s' % (L, form)
+            if form == 'value':
+                body = ('forall|k: KeyCode, m: Modifiers, h: HandleControl| #![trigger AnyLayout::%s(%s).spec_map(k, &m, h)] '
+                        'AnyLayout::%s(%s).spec_map(k, &m, h) == %s.spec_map(k, &m, h)' % (L, L, L, L, L))
+            else:
+                body = ('forall|k: KeyCode, m: Modifiers, h: HandleControl| #![trigger <&AnyLayout as KeyboardLayout>::spec_map(&&AnyLayout::%s(%s), k, &m, h)] '
+                        '<&AnyLayout as KeyboardLayout>::spec_map(&&AnyLayout::%s(%s), k, &m, h) == %s.spec_map(k, &m, h)' % (L, L, L, L, L))
+            out.append('/*@LEMMA:%s@*/' % cid)
+            out.append('pub proof fn wrap_%s_%s()\n    ensures\n        %s,\n{\n}' % (L, form, body))
+            out.append('/*@ENDLEMMA@*/')
+            obs[cid] = {'kind': 'lemma', 'props': [prop], 'text': 'AnyLayout::%s used by %s == %s for every key, modifier set and Ctrl mode' % (L, form, L)}
+    out.append('} // mod verif_c17_cells')
+    return '\n'.join(out), obs, {'variants': lays, 'cells_covered': 2 * len(lays)}
